@@ -28,15 +28,15 @@ var kindName = []string{"typed", "multi", "wild"}
 // emission is one Emit call: event id = (Em, Seq).
 type emission struct {
 	Em, Seq, Typ, G int
-	Call, Ret    int64
-	Refused      bool // Emit returned an error (emitter closed): nothing was emitted
+	Call, Ret       int64
+	Refused         bool // Emit returned an error (emitter closed): nothing was emitted
 }
 
 // emitterLog is one Emitter()/Close() pair. CloseCall == never: Close was not called.
 type emitterLog struct {
-	ID, Typ            int
-	Stateful           bool
-	OpenCall, OpenRet  int64
+	ID, Typ             int
+	Stateful            bool
+	OpenCall, OpenRet   int64
 	CloseCall, CloseRet int64
 }
 
@@ -47,15 +47,15 @@ type readRec struct {
 }
 
 type subLog struct {
-	ID, Kind, Buf      int
-	Types              []int // subscribed types (ignored for wildcard)
-	SelfClose          bool
-	SubCall, SubRet    int64
+	ID, Kind, Buf       int
+	Types               []int // subscribed types (ignored for wildcard)
+	SelfClose           bool
+	SubCall, SubRet     int64
 	CloseCall, CloseRet int64 // never: not called / did not return
-	Reads              []readRec
-	SawAllAt           int64 // stamp taken after the last closing marker (sentinel) was read; 0: never
-	ChanClosedAt       int64 // stamp at which the reader saw the channel closed; 0: never
-	FullReads          int   // receives that found the buffer full (back-pressure reached)
+	Reads               []readRec
+	CaughtUpAt          int64 // stamp taken by the reader after it emptied the channel once every Emit of the run had returned; 0: never
+	ChanClosedAt        int64 // stamp at which the reader saw the channel closed; 0: never
+	FullReads           int   // receives that found the buffer full (back-pressure reached)
 }
 
 type history struct {
@@ -73,17 +73,17 @@ type finding struct {
 }
 
 type checkStats struct {
-	events, refused, reads                int
-	mandatoryChecked, gapChecks           int
-	quiescentSubs, earlySubs              int
-	replays, replayRequired               int
-	replayConcurrentEmit                  int
-	subOverlapEmit, closeOverlapEmit      int
-	readsAfterCloseCall                   int
-	fullReads, unbufferedReads            int
-	reopenAfterZeroLiveSub                int
-	byKind                                [3]int
-	staleOptionalRead                     int // events overlapping Subscribe that were delivered
+	events, refused, reads           int
+	mandatoryChecked, gapChecks      int
+	quiescentSubs, earlySubs         int
+	replays, replayRequired          int
+	replayConcurrentEmit             int
+	subOverlapEmit, closeOverlapEmit int
+	readsAfterCloseCall              int
+	fullReads, unbufferedReads       int
+	reopenAfterZeroLiveSub           int
+	byKind                           [3]int
+	staleOptionalRead                int // events overlapping Subscribe that were delivered
 }
 
 type evKey struct{ em, seq int }
@@ -154,7 +154,7 @@ func check(h *history) ([]finding, checkStats) {
 		add := func(clause, msg string) {
 			out = append(out, finding{Sig: clause + ":" + kindName[s.Kind], Sub: s.ID, Msg: fmt.Sprintf("sub %d (%s buf %d): %s", s.ID, kindName[s.Kind], s.Buf, msg)})
 		}
-		quiescent := s.SawAllAt != 0 && s.SawAllAt < s.CloseCall
+		quiescent := s.CaughtUpAt != 0 && s.CaughtUpAt < s.CloseCall
 		if quiescent {
 			st.quiescentSubs++
 		} else {
@@ -388,7 +388,7 @@ func (h *history) render() map[string]any {
 		}
 		subs = append(subs, map[string]any{"id": s.ID, "kind": kindName[s.Kind], "types": s.Types, "buf": s.Buf, "self_close": s.SelfClose,
 			"subscribe": fmt.Sprintf("[%d,%d]", s.SubCall, s.SubRet), "close": fmt.Sprintf("[%s,%s]", stampStr(s.CloseCall), stampStr(s.CloseRet)),
-			"caught_up_at": s.SawAllAt, "chan_closed_at": s.ChanClosedAt, "reads": rd})
+			"caught_up_at": s.CaughtUpAt, "chan_closed_at": s.ChanClosedAt, "reads": rd})
 	}
 	return map[string]any{"stateful_types": h.Stateful[:h.NTypes], "emitters": ems, "emissions(id type goroutine [call,ret])": em, "subscribers": subs}
 }
